@@ -1,4 +1,5 @@
 import Dicom.Proofs.Provider3
+import Dicom.Proofs.Sched
 /-! # C13 — every ending terminates the provider and releases the connection (model level) -/
 namespace Dicom.C13
 open Dicom.UL Dicom.Prov
@@ -46,6 +47,88 @@ theorem closes_by_artim (p : P) (t : Tick) (hq : Quiet p) (hst : p.st = .s2 ∨ 
     List.append_nil, Nat.lt_irrefl, Bool.true_and, decide_eq_true_eq, hexp]
   rcases hst with h | h <;> subst h <;> simp [table, act, dropGen, sends]
 
+/-- a tick in which nothing happens but time passing -/
+def Silent (t : Tick) : Prop := t.net = .idle ∧ t.enq = []
+
+/-- idle, closed, nothing pending: silent ticks change nothing but the clock -/
+theorem idle_stays (ts : List Tick) (hs : ∀ t ∈ ts, Silent t) : ∀ (p : P), Quiet p → p.st = .s1 →
+    p.fromUser = [] → p.gen = 0 →
+    (run p ts).1.st = .s1 ∧ (run p ts).1.sock = false ∧ (run p ts).1.crashed = false := by
+  induction ts with
+  | nil => intro p hq h1 _ _; exact ⟨h1, hq.2.2.2.mp h1, hq.1⟩
+  | cons t ts ih =>
+    intro p hq h1 hu hg
+    have ht := hs t (by simp)
+    obtain ⟨hc, htm, hqe, hss⟩ := hq
+    obtain ⟨st, sock, evq, rx, timer, now, tstart, raw, inbox, fromUser, gen, requestor, crashed⟩ := p
+    obtain ⟨net, enq, dt, sf⟩ := t
+    obtain ⟨hn, he⟩ := ht
+    simp only at hc hqe hss h1 hu hg hn he
+    subst hc hqe h1 hu hg hn he
+    have hsock : sock = false := hss.mp rfl
+    subst hsock
+    unfold TimerOk at htm
+    simp only at htm
+    have htimer : timer = false := by
+      cases timer with
+      | false => rfl
+      | true => have := htm.mp rfl; simp at this
+    subst htimer
+    have hstep : iter ⟨.s1, false, [], rx, false, now, tstart, raw, inbox, [], 0, requestor, false⟩ ⟨.idle, [], dt, sf⟩ =
+        (⟨.s1, false, [], rx, false, now + dt, tstart, raw, inbox, [], 0, requestor, false⟩, []) := by
+      simp [iter, prePoll, arrive, poll, checkNetwork, pollRest, checkOutgoing, checkTimer, dispatch]
+    simp only [run, hstep]
+    exact ih (fun x hx => hs x (by simp [hx])) _ ⟨rfl, by unfold TimerOk; simp, rfl, by simp⟩ rfl rfl rfl
+
+/-- **the peer stays silent, over every schedule**: awaiting the first PDU (Sta2) or the peer's close (Sta13)
+with nothing buffered, any sequence of passes in which nothing arrives and the local user does nothing, and
+during which more than the ARTIM period elapses in total, ends idle with the transport closed — however the
+time is spread over the passes, and however many more silent passes follow. -/
+theorem silence_always_ends (ts : List Tick) (hs : ∀ t ∈ ts, Silent t) : ∀ (p : P), Quiet p →
+    (p.st = .s2 ∨ p.st = .s13) → p.raw = [] → p.inbox = [] → p.fromUser = [] → p.gen = 0 →
+    p.now - p.tstart ≤ artim → p.now + (ts.map (·.dt)).sum - p.tstart > artim →
+    (run p ts).1.st = .s1 ∧ (run p ts).1.sock = false ∧ (run p ts).1.crashed = false := by
+  induction ts with
+  | nil =>
+    intro p _ _ _ _ _ _ hnot hexp
+    simp only [List.map_nil, List.sum_nil, Nat.add_zero] at hexp
+    omega
+  | cons t ts ih =>
+    intro p hq hst hraw hin hu hg hnot hexp
+    have ht := hs t (by simp)
+    have hrest : ∀ x ∈ ts, Silent x := fun x hx => hs x (by simp [hx])
+    simp only [List.map_cons, List.sum_cons] at hexp
+    simp only [run]
+    by_cases hnow : p.now + t.dt - p.tstart > artim
+    · -- ARTIM has run out at this pass
+      obtain ⟨h1, h2, h3⟩ := closes_by_artim p t hq hst hraw hin hu hg ht.1 ht.2 hnow
+      have hpinv : PInv (iter p t).1 := iter_inv p t (fun _ => Or.inl hq)
+      have hnu : NoUser (iter p t).1 := iter_peer p t (fun _ => Or.inl hq) ⟨hq.1, hu, hg⟩ ht.2
+      have hq1 : Quiet (iter p t).1 := by
+        rcases hpinv h3 with h | h | h
+        · exact h
+        · rw [h2] at h; exact absurd h.2.1 (by simp)
+        · exact absurd h1 h.2.2.1
+      exact idle_stays ts hrest _ hq1 h1 hnu.2.1 hnu.2.2
+    · -- not yet: the pass only lets time go by
+      have hstep : iter p t = ({ p with now := p.now + t.dt }, []) := by
+        obtain ⟨hc, htm, hqe, hss⟩ := hq
+        obtain ⟨st, sock, evq, rx, timer, now, tstart, raw, inbox, fromUser, gen, requestor, crashed⟩ := p
+        obtain ⟨net, enq, dt, sf⟩ := t
+        obtain ⟨hn, he⟩ := ht
+        simp only at hc hqe hss hst hraw hin hu hg hn he hnow
+        subst hc hqe hraw hin hu hg hn he
+        have hsock : sock = true := by
+          cases sock
+          · have := hss.mpr rfl; rcases hst with h | h <;> simp [h] at this
+          · rfl
+        subst hsock
+        have h4 : st ≠ .s4 := by rcases hst with h | h <;> simp [h]
+        simp [iter, prePoll, arrive, poll, checkNetwork, processIncoming, pollRest, checkOutgoing, checkTimer, h4, dispatch, hnow]
+      rw [hstep]
+      have hq' : Quiet { p with now := p.now + t.dt } := hq
+      refine ih hrest _ hq' hst hraw hin hu hg (by simp only; omega) (by simp only; omega)
+
 /-- **a request to stop always completes**: every pass of the loop returns (the model has no blocking
 call: `iter` is a total function), so the termination flag is looked at again after each pass. -/
 theorem stop_completes (p : P) (t : Tick) : ∃ p' o, iter p t = (p', o) := ⟨_, _, rfl⟩
@@ -56,5 +139,25 @@ example : (run initAcc [{}, { net := .data [.rq] }, { enq := [.ac] }, { net := .
 
 /-- rejection followed by a peer that never closes: ARTIM ends it -/
 example : (run initAcc [{}, { net := .data [.rq] }, { enq := [.rj] }, { dt := 11 }]).1.st = .s1 := by decide
+
+/-- **the peer's close ends the association, over every schedule.**  From any reachable calm state (nothing of
+the local user pending), whatever the peer sent before closing, however the transport segmented and timed
+it, once the close has been delivered at most `mu` further passes leave the provider idle, the transport
+closed, ARTIM stopped and the loop alive. -/
+theorem peer_close_always_ends (p : P) (hp : Calm p) (hinv : PInv p) (hc : p.crashed = false) (ts : List Tick)
+    (hn : ∀ t ∈ ts, NetOnly t) (heof : none ∈ dels ts) (n : Nat) (hmu : mu (run p ts).1 ≤ n) :
+    (run p (ts ++ List.replicate n ({} : Tick))).1.st = .s1 ∧ (run p (ts ++ List.replicate n ({} : Tick))).1.sock = false ∧
+    (run p (ts ++ List.replicate n ({} : Tick))).1.timer = false ∧
+    (run p (ts ++ List.replicate n ({} : Tick))).1.crashed = false :=
+  eof_closes p hp hinv hc ts hn heof n hmu
+
+/-- non-vacuity: the acceptor after its first pass (Sta2, awaiting the A-ASSOCIATE-RQ) meets the premises, and
+a schedule "garbage, a release request, then the close" delivers the close -/
+example : Calm (iter initAcc {}).1 ∧ PInv (iter initAcc {}).1 ∧ (iter initAcc {}).1.crashed = false ∧
+    none ∈ dels [{ net := .data [.invalid, .rlrq] }, { net := .eof }] := by
+  refine ⟨?_, iter_inv _ _ initAcc_inv, by decide, by decide⟩
+  refine ⟨⟨by decide, by decide, ?_, ?_⟩, by decide⟩
+  · intro _; decide
+  · intro _; decide
 
 end Dicom.C13
